@@ -22,7 +22,7 @@ RULE = ("all multisets of log-weights of size N in {2,3,4} over {0,-1,ln2,-50,70
         "never +-1e5 mixed with each other beyond what one float width can represent is still included), every distinct "
         "permutation, split over (logL, log pi, log q) in 3 ways, x {numpy,torch,jax} x {float32,float64} (jax/torch reduced in "
         "quick), constant shifts {-1e5,-1,3,1e5} of log L; rejection sampling: for N<=3 every combination of per-row uniforms "
-        "from {r/2, r*(1-m), r*(1+m), min(1,2r)}. non-trivial = weight vector not constant; distinct = distinct (vector, split, "
+        "from {r/2, r*(1-m), r*(1+m), min(1,2r)}; two independently weighted sets concatenated at log-likelihood offsets {0, 1e3, 5e4, +-1e5}. non-trivial = weight vector not constant; distinct = distinct (vector, split, "
         "ns, dtype, shift)")
 ASSUMPTIONS = [
     "finite value alphabet (checks/c02.py); tolerances are rounding-aware for the dtype under test",
@@ -302,6 +302,35 @@ def run_chunk(arg):
     return r.dump()
 
 
+def run_pooled(arg):
+    """Two independently weighted sets put together: the pooled set's functionals are those of its own weights (nothing
+    is taken over from a piece), at every magnitude of the log-likelihood."""
+    from aspire.samples import Samples
+
+    ns, dt = arg
+    r = Report()
+    pieces = [((0.0, -1.0, -2.5), (-0.3, -0.8)), ((0.0, -0.1), (-0.05, -3.0, -0.2))]
+    for (a, b), off in itertools.product(pieces, (0.0, 1e3, 5e4, 1e5, -1e5)):
+        if dt == "float32" and abs(off) >= 5e4:
+            continue  # float32 cannot resolve O(1) differences at this magnitude
+        case = {"pooled": True, "ns": ns, "dtype": dt, "a": list(a), "b": list(b), "offset": off}
+        r.case(explorer.digest(case), nontrivial=True)
+        try:
+            s1 = make(tuple(v for v in a), "likelihood", ns, dt, off)
+            s2 = make(tuple(v for v in b), "likelihood", ns, dt, off)
+            pooled = Samples.concatenate([s1, s2])
+        except Exception as e:
+            r.violation(f"C02/pooled/raises/{type(e).__name__}", repr(e)[:200], case)
+            continue
+        verify(r, pooled, None, ns, dt, case, "/pooled")
+    r.sample({"pooled": True, "ns": ns, "dtype": dt})
+    return r.dump()
+
+
+def dispatch(job):
+    return globals()[job[0]](job[1])
+
+
 def vectors(n):
     out = []
     for c in itertools.combinations_with_replacement(ALPHABET, n):
@@ -331,11 +360,16 @@ def run(tier, seed, workers):
     jobs.sort(key=lambda j: -len(j[0]) * (4 if j[1] == "jax" else 1))
     for d in pmap("checks.c02", "run_chunk", jobs, workers):
         rep.merge(d)
+    for d in pmap("checks.c02", "run_pooled", [(ns, dt) for ns in ("numpy", "torch", "jax") for dt in ("float64", "float32")], workers):
+        rep.merge(d)
     return rep
 
 
 def replay(case):
     r = Report()
+    if case.get("pooled"):
+        r.merge(run_pooled((case["ns"], case["dtype"])))
+        return r
     lw = [(-math.inf if v == "-inf" else v) for v in case["log_w"]]
     res = check_one(r, tuple(lw), case["split"], case["ns"], case["dtype"], case.get("shift", 0.0), case)
     r.case("replay")
